@@ -49,6 +49,8 @@ func C19(c *Ctx) {
 	r.Rule("R19.5", "index key agreement: every probe / removal on one of the pool's ordered indices builds its key the way the insertions into that index do (same key type; for timestamped keys the same timestamp source: the transaction's own timestamp vs. a recorded local time); an index wrapper that records the time of its keys in a side map (items) deletes an entry under the time it looked up there, never under a new one.")
 	c.c19KeyAgreement()
 	c.c19RecordedKey()
+	r.Rule("R19.6", "one index entry per slot: an index wrapper keyed by (account, nonce, time) that records the time in a side map (items) replaces nothing when the same slot is inserted with a new time (the btree key differs). Its raw insertion (ReplaceOrInsert + items[slot] = time without looking the slot up) is therefore called only where the old entry of the slot has been taken out: on every path to the call an index.Delete was executed, or the items lookup of the slot answered 'absent'. Otherwise a superseded transaction leaves its entry behind, the eviction sweep resolves it to the replacement and evicts the young replacement with the old one's age.")
+	c.c19RawInsert()
 	r.NotDecided = append(r.NotDecided, "liveness ('included in one of the next batches'); drift of the counter over histories; goroutine confinement of the pool (see C20 R20.5)")
 
 	ra := c.fn("R19.1", mpPrefix+"RemoveAliveTimeoutTxs")
